@@ -327,6 +327,17 @@ def run(ctx):
         ctx.attempt(rule4_timed, ctx, v)
         ctx.attempt(rule5_finisher, ctx, fl)
         from . import c12
+        if fl == flavours(ctx)[0]:
+            from . import c16
+            for wfl in ('ld', 'dl'):
+                with ctx.shared({'C16.1': 'C13.10'}, keep=lambda k: k.startswith(('pthread_join[', 'pthread_tryjoin_np[', 'pthread_timedjoin_np[',
+                                                                                   'pthread_detach[')), floor=8,
+                                doc='the redirected join family (shared with C16.1): pthread_join / tryjoin_np / timedjoin_np / detach reach '
+                                    'the body of the same operation with their arguments in order (a timed join forwarded to the try-join '
+                                    'body gives up at once)'):
+                    v16, ws16 = c16.build_view(ctx, wfl)
+                    ctx.attempt(c16.rule1_forward, ctx, wfl, v16, ws16)
+            ctx.unit = fl
         from . import c01
         with ctx.shared({'C01.6': 'C13.9'}, keep=lambda k: k.startswith(('myth_entry_point_1', 'myth_entry_point_2')), floor=6,
                         doc='the exit callbacks leave the record unlocked (shared with C01.6): a detached thread that recycles its record '
